@@ -142,6 +142,28 @@ func zzC13Ended() {
 	zzAssert("C13.ended.seid-reused", y.LocalID == 1)
 	_, ok = s.PopBufPkt(1, pdr)
 	zzAssert("C13.ended.nothing-after-reuse", !ok)
+	// the new session buffers a packet of its own (same or another PDR id): exactly that packet
+	// comes back, nothing of the ended session in front of or behind it
+	pdr2 := pdr
+	if nondetBool("other-pdr") {
+		pdr2 = nondetU16("pdr2")
+	}
+	mine := []byte{9, 8, 7, 6}
+	s.ServeReport(&report.SessReport{SEID: y.LocalID, Reports: []report.Report{report.DLDReport{PDRID: pdr2, Action: report.APPLY_ACT_BUFF, BufPkt: mine}}})
+	zzAssert("C13.ended.reuse.holds-one", y.Len(pdr2) == 1)
+	got, ok := s.PopBufPkt(y.LocalID, pdr2)
+	zzAssert("C13.ended.reuse.own-packet-only", ok && zzSameBytes(got, mine))
+	_, ok = s.PopBufPkt(y.LocalID, pdr2)
+	zzAssert("C13.ended.reuse.nothing-else", !ok)
+	// ... and a session of ANOTHER node created after the end gets nothing of it either
+	nb := s.NewNode(zzNodeB, zzAddrB, dp)
+	s.rnodes[zzNodeB] = nb
+	z := nb.NewSess(0x92)
+	s.ServeReport(&report.SessReport{SEID: z.LocalID, Reports: []report.Report{report.DLDReport{PDRID: pdr, Action: report.APPLY_ACT_BUFF, BufPkt: mine}}})
+	got, ok = s.PopBufPkt(z.LocalID, pdr)
+	zzAssert("C13.ended.other-node.own-packet-only", ok && zzSameBytes(got, mine))
+	_, ok = s.PopBufPkt(z.LocalID, pdr)
+	zzAssert("C13.ended.other-node.nothing-else", !ok)
 	zzCover("C13.ended.done")
 }
 
